@@ -234,6 +234,10 @@ async def _explore(m, world, njobs, variant, limit=3000):
                         return dict(world=world, njobs=njobs, error="schedule does not terminate", schedule=list(map(str, choices)))
             except C09_bounded.Internal as e:
                 return dict(world=world, njobs=njobs, variant=variant, error=str(e), schedule=list(map(str, choices or ())))
+            except (m["exceptions"].ConsistencyError, AssertionError) as e:
+                # the code's own sanity checks (e.g. _derive_job: a dispatched step has an input that is not ready)
+                return dict(world=world, njobs=njobs, variant=variant, error=f"{type(e).__name__}: {str(e)[:200]}",
+                            schedule=list(map(str, choices or ())))
             decisions += w.decisions
     return dict(schedules=min(explored, limit), decisions=decisions, truncated=explored > limit)
 
